@@ -20,7 +20,8 @@ from vf.oracles import cm
 PROPERTY = 'C15'
 RULE = ('tier A: exhaustive small scopes of content models (S1 1 171 050 models over two element names '
         'with <= 3 leaves; S2 models with substitution-head / wildcard leaves; S3 same-named local '
-        'declarations), quick = seeded slice, thorough = complete, XSD 1.0 and 1.1; tier B: a fixed '
+        'declarations; S5 substitution members; S6 a fixed 12 000-model sample of models with prohibited (maxOccurs=0) '
+        'particles), quick = seeded slice, thorough = complete, XSD 1.0 and 1.1; tier B: a fixed '
         'pool of 24 000 random models up to depth 3 / 8 leaves (quick: seeded 1/12). Oracle: reachable state of the '
         'unrolled position automaton with two candidate next positions from different particles '
         'matching a common name (1.1: element vs wildcard is not a conflict) or two same-named '
@@ -39,7 +40,15 @@ SCOPES = {
     'S3': dict(names='xyz', occs=[(1, 1), (0, 1), (0, None)], max_leaves=2, canon_swap=False),
     'S5': dict(names='amb', occs=[(1, 1), (0, 1), (0, None)], max_leaves=2, canon_swap=False),
 }
-QUICK_FRACTION = {'S1': 0.04, 'S2': 0.25, 'S3': 1.0, 'S5': 1.0}
+QUICK_FRACTION = {'S1': 0.04, 'S2': 0.25, 'S3': 1.0, 'S5': 1.0, 'S6': 0.1}
+# S6: models with prohibited particles (minOccurs = maxOccurs = 0): a fixed sample of the <= 3-leaf scope
+S6_OCCS = [(1, 1), (0, 1), (0, 0), (1, None), (2, 3)]
+S6_SEED, S6_SIZE = 20260926, 12000
+
+
+def has_prohibited(m):
+    """Input-only predicate: some particle of the model has maxOccurs = 0."""
+    return m[3] == 0 or (m[0] != 'e' and any(has_prohibited(c) for c in m[1]))
 
 
 def key(ver, m):
@@ -76,7 +85,8 @@ def judge_batch(ver, models, st, strict_sample=None):
                         'expected': 'model error (%s)' % ('EDC' if A.edc() else 'UPA conflict %r' % (conf[:1],))
                         if exp else 'accepted (deterministic)',
                         'observed': merr[i][0][:160] if got else 'accepted',
-                        'key': key(ver, m), 'classes': []})
+                        'key': key(ver, m),
+                        'classes': ['prohibited-particle'] if (not exp and has_prohibited(m)) else []})
         if strict_sample is not None and strict_sample(i):
             st.case()
             st.cls('strict_rebuild')
@@ -206,7 +216,15 @@ def shrunk_form(ver, m, exp, got):
 
 # ------------------------------------------------------------------------------------ protocol
 
+_S6 = []
+
+
 def _scope_models(name):
+    if name == 'S6':
+        if not _S6:
+            ms = [m for m in cm.scope(names='bc', occs=S6_OCCS, max_leaves=3) if has_prohibited(m)]
+            _S6.extend(random.Random(S6_SEED).sample(ms, S6_SIZE))
+        return _S6
     return list(cm.scope(**SCOPES[name]))
 
 
@@ -214,7 +232,7 @@ def shards(tier, seed):
     out = []
     nshard = 16
     for ver in ('10', '11'):
-        for name in SCOPES:
+        for name in list(SCOPES) + ['S6']:
             for k in range(nshard):
                 out.append(('A', ver, name, k, nshard, tier, seed))
         for k in range(8):
